@@ -124,7 +124,7 @@ def _checks_element_type(t, v, i):
     sh = t.sh
     body = t.call[v]["body"]
     for n in walk(body):
-        if n.get("k") != "Let" or n.get("init") is None or not isinstance(n.get("pat"), dict):
+        if n.get("k") != "Local" or n.get("init") is None or not isinstance(n.get("pat"), dict):
             continue
         if not re.match(r"^args\[%d\]\.unwrap_list\(\)\?$" % i, sh.nsrc(RT, n["init"])):
             continue
